@@ -19,7 +19,7 @@ THEOREMS = {
             "C05.stamp_base", "C05.stampRevs_ids", "C05.stampOk_sound", "C05.lineage_history", "C05.stamp_fold", "C05.sharesLineage_iff",
             "Lemmas.Rev.fold_ok", "Lemmas.Rev.loaded_of_load", "C05.stamp_branch_head", "C05.getRevisions_branch_head", "C05.resolveShares_branch_head"],
     "C15": ["C15.cyclic_rejected", "C15.detect_rejects_cycle", "C15.acyclic_accepted", "C15.acyclic_loads",
-            "C15.acyclic_no_cycle", "C15.heads_bases", "C15.heads_bases_history", "C15.closure_total", "C15.hasCycle_sound", "C15.hasCycle_complete", "C15.hasCycle_iff", "C15.no_cycle_acyclic", "C15.no_cycle_accepted",
+            "C15.acyclic_no_cycle", "C15.heads_bases", "C15.heads_bases_history", "C15.closure_total", "C15.hasCycle_sound", "C15.hasCycle_complete", "C15.hasCycle_iff", "C15.no_cycle_acyclic", "C15.no_cycle_accepted", "C15.cyclic_refused_every_read", "C15.memo_run_refused", "C15.memo_run_loaded",
             "Lemmas.Rev.peel_of_ranked", "Lemmas.Rev.peel_keeps_cycle", "Lemmas.Rev.ranked_of_peel",
             "Lemmas.Rev.detect_ok_of_ranked", "Lemmas.Rev.mem_closureOf_iff"],
     "C16": ["C16.full_id", "C16.plain_sound", "C16.prefix_unique_partial", "C16.prefix_unique_counterexample",
